@@ -376,6 +376,20 @@ def lib_models():
             return base64.b64encode(s.encode('utf-8'))
         return SBytes(SStr([Sq(_b64(str_z3(s)))]))
 
+    # the other encoders of the base64 module are different functions of the text (nothing relates them to b64_of_text):
+    # code that switches to one of them no longer satisfies "the header decodes to the configured credentials"
+    def other_encoder(name):
+        fn = z3.Function(name + '_of_text', z3.StringSort(), z3.StringSort())
+
+        def model(I, args, kwargs):
+            (b,) = args
+            if isinstance(b, bytes):
+                return getattr(base64, name)(b)
+            if isinstance(b, SBytes):
+                return SBytes(SStr([Sq(fn(str_z3(b.text)))]))
+            raise Unsupported(f"{name} of a non-text bytes value")
+        return model
+
     def opq(v):
         if not isinstance(v, SOpaque):
             raise Unsupported("urlencode / json.dumps of a non-opaque value")
@@ -388,7 +402,10 @@ def lib_models():
         return SStr([Sq(_js(opq(args[0])))])
 
     return {base64.b64encode: m_b64encode, b64_text: m_b64_text, urlencode: m_urlencode, urlencode_spec: m_urlencode,
-            json.dumps: m_json, json_spec: m_json}
+            json.dumps: m_json, json_spec: m_json,
+            base64.urlsafe_b64encode: other_encoder('urlsafe_b64encode'),
+            base64.standard_b64encode: m_b64encode,
+            base64.b32encode: other_encoder('b32encode'), base64.b16encode: other_encoder('b16encode')}
 
 
 CANARIES = [
